@@ -103,6 +103,9 @@ func loadProgram(repo string, want []string) (*Program, error) {
 			p.contracts[short] = cf
 		}
 	}
+	if err := p.registerImmutables(); err != nil {
+		return nil, err
+	}
 	return p, nil
 }
 
